@@ -104,7 +104,7 @@ theorem occ_sound_reach (σ : Store) (v fuel : Nat) (t : Ty) (h : occ σ false v
   rintro ⟨w, hw, hr⟩
   exact occ_sound σ v fuel t h w hw hr
 
-/-- COMPLETENESS, both forms... only the `||` one is true: an answer `true` exhibits a path. -/
+/-- COMPLETENESS of the `||` form, on every store: an answer `true` exhibits a path. -/
 theorem occ_complete (σ : Store) (v : Nat) : ∀ (fuel : Nat) (t : Ty), occ σ false v fuel t = some true → Reach σ v t := by
   intro fuel
   induction fuel with
